@@ -1,1 +1,489 @@
-(** Model/Config.v — placeholder, to be written. *)
+(** Model/Config.v — pypyr/config.py [Config.__init__], [Config.init], [handle_path],
+    [update], [load_yaml], [load_pyproject_toml] and the Linux branch of
+    pypyr/platform.py ([Xdg.get_config_user], [Xdg.get_config_common]), as the code is.
+
+    The file system is a total function from path text to file content; the content of a
+    file is the value its parser returns (ruamel.yaml / tomllib are in the trusted base).
+    Relative paths ("pyproject.toml", the local file name, a relative
+    $PYPYR_CONFIG_GLOBAL) are looked up as they are: the file system is the view from the
+    current working directory.  Base directories are assumed to be clean absolute paths
+    (pathlib would normalise trailing or doubled separators).  The encoding with which a
+    yaml file is decoded ([default_encoding], settable by a lower-precedence file) is not
+    modelled: contents are taken to decode the same under every encoding in play. *)
+From PV Require Export PyVal.
+Open Scope string_scope.
+
+(** Printing only (no logical content): the correspondence shards print the list of
+    disagreeing case indices, and the harness reads that list with a regular expression
+    that does not survive Coq's line wrapping inside a pair; importing this module makes
+    the list print on one line. *)
+#[export] Set Printing Width 1000000.
+
+(** * Attribute table of the scalar settings: string-keyed, fixed order *)
+Definition smap := list (string * val).
+
+Fixpoint sm_get (k : string) (m : smap) : option val :=
+  match m with
+  | [] => None
+  | (k', v) :: r => if String.eqb k k' then Some v else sm_get k r
+  end.
+
+(** [setattr]: overwrite in place, append when new. *)
+Fixpoint sm_set (k : string) (v : val) (m : smap) : smap :=
+  match m with
+  | [] => [(k, v)]
+  | (k', v') :: r => if String.eqb k k' then (k', v) :: r else (k', v') :: sm_set k v r
+  end.
+
+(** [Config.scalar_props] = [all_writable_props - dict_props]. *)
+Definition scalar_props : list string :=
+  [ "json_ascii"; "json_indent"; "pipelines_subdir";
+    "log_config"; "log_date_format"; "log_notify_format"; "log_detail_format";
+    "default_backoff"; "default_cmd_encoding"; "default_encoding"; "default_loader";
+    "default_group"; "default_success_group"; "default_failure_group";
+    "no_cache" ].
+
+(** [Config.dict_props]. *)
+Definition dict_props : list string := [ "shortcuts"; "vars" ].
+
+Definition is_known (k : val) : bool :=
+  match k with
+  | VStr s => str_in s scalar_props || str_in s dict_props
+  | _ => false
+  end.
+
+(** * The Config object, as far as [init] touches it *)
+Record config := mkConfig {
+  c_scalars : smap;                              (* the 15 scalar attributes *)
+  c_shortcuts : dict;
+  c_vars : dict;
+  c_loaded : list string;                        (* _config_loaded_paths, load order *)
+  c_pyproject : option dict;                     (* _pyproject_toml *)
+  c_skip_init : bool;                            (* _skip_init *)
+  c_paths : option (string * list string)        (* _platform_paths: config_user, config_common *)
+}.
+
+Definition with_scalars (c : config) (s : smap) : config :=
+  mkConfig s (c_shortcuts c) (c_vars c) (c_loaded c) (c_pyproject c) (c_skip_init c) (c_paths c).
+Definition with_loaded (c : config) (p : string) : config :=
+  mkConfig (c_scalars c) (c_shortcuts c) (c_vars c) (c_loaded c ++ [p]) (c_pyproject c)
+           (c_skip_init c) (c_paths c).
+Definition with_pyproject (c : config) (t : dict) : config :=
+  mkConfig (c_scalars c) (c_shortcuts c) (c_vars c) (c_loaded c) (Some t) (c_skip_init c) (c_paths c).
+Definition with_skip (c : config) : config :=
+  mkConfig (c_scalars c) (c_shortcuts c) (c_vars c) (c_loaded c) (c_pyproject c) true (c_paths c).
+Definition with_paths (c : config) (u : string) (cs : list string) : config :=
+  mkConfig (c_scalars c) (c_shortcuts c) (c_vars c) (c_loaded c) (c_pyproject c) (c_skip_init c)
+           (Some (u, cs)).
+
+(** * Environment variables read by [Config.__init__], [Config.init] and [Xdg] *)
+Record env := mkEnv {
+  e_skip_init : option string;      (* PYPYR_SKIP_INIT *)
+  e_global : option string;         (* PYPYR_CONFIG_GLOBAL *)
+  e_local : option string;          (* PYPYR_CONFIG_LOCAL *)
+  e_xdg_dirs : option string;       (* XDG_CONFIG_DIRS *)
+  e_xdg_home : option string;       (* XDG_CONFIG_HOME *)
+  e_home : string;                  (* HOME, for expanduser('~/.config') *)
+  e_no_cache : option string;       (* PYPYR_NO_CACHE *)
+  e_encoding : option string;       (* PYPYR_ENCODING *)
+  e_cmd_encoding : option string    (* PYPYR_CMD_ENCODING *)
+}.
+
+Definition getenv (o : option string) (default : string) : string :=
+  match o with Some s => s | None => default end.
+
+(** [pypyr.utils.types.cast_str_to_bool]. *)
+Definition cast_str_to_bool (s : string) : bool := str_in (lower s) ["true"; "1"; "1.0"].
+
+Definition opt_str (o : option string) : val :=
+  match o with Some s => VStr s | None => VNone end.
+
+(** [Config.__init__]. *)
+Definition defaults (e : env) : config :=
+  mkConfig
+    [ ("json_ascii", VBool false); ("json_indent", VInt 2); ("pipelines_subdir", VStr "pipelines");
+      ("log_config", VNone); ("log_date_format", VStr "%Y-%m-%d %H:%M:%S");
+      ("log_notify_format", VStr "%(message)s");
+      ("log_detail_format", VStr "%(asctime)s %(levelname)s:%(name)s:%(funcName)s: %(message)s");
+      ("default_backoff", VStr "fixed");
+      ("default_cmd_encoding", opt_str (e_cmd_encoding e));
+      ("default_encoding", opt_str (e_encoding e));
+      ("default_loader", VStr "pypyr.loaders.file");
+      ("default_group", VStr "steps");
+      ("default_success_group", VStr "on_success");
+      ("default_failure_group", VStr "on_failure");
+      ("no_cache", VBool (cast_str_to_bool (getenv (e_no_cache e) "0"))) ]
+    [] [] [] None false None.
+
+(** * Platform paths (pypyr.platform.Xdg) *)
+Definition is_space (c : ascii) : bool :=
+  let n := nat_of_ascii c in
+  Nat.eqb n 32 || (Nat.leb 9 n && Nat.leb n 13) || (Nat.leb 28 n && Nat.leb n 31).
+
+(** [not s.strip()] *)
+Fixpoint is_blank (s : string) : bool :=
+  match s with
+  | EmptyString => true
+  | String c r => is_space c && is_blank r
+  end.
+
+(** [Path(base, 'pypyr', 'config.yaml')] for a clean base. *)
+Definition cfg_file (base : string) : string := base ++ "/pypyr/config.yaml".
+
+Definition user_path (e : env) : string :=
+  let p := getenv (e_xdg_home e) "" in
+  cfg_file (if is_blank p then e_home e ++ "/.config" else p).
+
+Definition common_paths (e : env) : list string :=
+  let p := getenv (e_xdg_dirs e) "" in
+  let p := if is_blank p then "/etc/xdg" else p in
+  map cfg_file (filter (fun d => negb (is_blank d)) (split_on ":"%char p "")).
+
+Definition local_name (e : env) : string := getenv (e_local e) "pypyr-config.yaml".
+
+(** [if env_config_path_str:] — set and non-empty. *)
+Definition global_path (e : env) : option string :=
+  match e_global e with
+  | Some EmptyString => None
+  | o => o
+  end.
+
+Definition skip_requested (e : env) : bool := cast_str_to_bool (getenv (e_skip_init e) "0").
+
+(** * File system *)
+Inductive fcontent := Absent | Content (v : val).
+Definition fsys := string -> fcontent.
+
+Fixpoint fs_of_list (l : list (string * val)) : fsys :=
+  fun p => match l with
+           | [] => Absent
+           | (q, v) :: r => if String.eqb p q then Content v else fs_of_list r p
+           end.
+
+(** * Results *)
+Inductive cerr :=
+| EUnknownProps (keys : list val)   (* ConfigError: Unexpected config props: {...} *)
+| ENotMapping (path : string)       (* ConfigError: Config file <path> should be a mapping ... *)
+| ENotFound (path : string)         (* ConfigError: Could not open config file at <path>. *)
+| EOther (name : string).           (* any other exception type escaping init *)
+
+Definition is_config_error (e : cerr) : bool :=
+  match e with EOther _ => false | _ => true end.
+
+Inductive cres (A : Type) : Type :=
+| COk (a : A)
+| CErr (e : cerr)
+| CUnsup.
+Arguments COk {A} a.
+Arguments CErr {A} e.
+Arguments CUnsup {A}.
+
+Definition cbind {A B} (r : cres A) (f : A -> cres B) : cres B :=
+  match r with COk a => f a | CErr e => CErr e | CUnsup => CUnsup end.
+
+(** * [Config.update] *)
+
+(** Python [d.update(m)] for a mapping [m]: for every key of [m], [d[k] = m[k]]. *)
+Definition map_update (d m : dict) : dict :=
+  fold_left (fun acc k => match dict_get k m with
+                          | Some v => dict_set k v acc
+                          | None => acc
+                          end) (dict_keys m) d.
+
+(** [getattr(self, k).update(input[k])] for whatever value the file gave the key. *)
+Definition update_dict_prop (cur : dict) (v : option val) : cres dict :=
+  match v with
+  | None => COk cur
+  | Some (VDict m) => COk (map_update cur m)
+  | Some (VList []) | Some (VTuple []) | Some (VStr EmptyString) => COk cur   (* empty iterable *)
+  | Some VNone | Some (VBool _) | Some (VInt _) | Some (VFloat _) => CErr (EOther "TypeError")
+  | Some _ => CUnsup      (* non-empty sequences / strings: pair-wise update or ValueError *)
+  end.
+
+(** [for k in scalars: setattr(self, k, input[k])] *)
+Definition update_scalars (s : smap) (p : dict) : smap :=
+  fold_left (fun acc name => match dict_get (VStr name) p with
+                             | Some v => sm_set name v acc
+                             | None => acc
+                             end) scalar_props s.
+
+Definition unknown_keys (p : dict) : list val :=
+  filter (fun k => negb (is_known k)) (dict_keys p).
+
+Definition update (c : config) (p : dict) : cres config :=
+  match unknown_keys p with
+  | _ :: _ => CErr (EUnknownProps (unknown_keys p))
+  | [] =>
+      match update_dict_prop (c_shortcuts c) (dict_get (VStr "shortcuts") p),
+            update_dict_prop (c_vars c) (dict_get (VStr "vars") p) with
+      | CUnsup, _ | _, CUnsup => CUnsup
+      | CErr e, _ => CErr e
+      | _, CErr e => CErr e
+      | COk sh, COk vs =>
+          COk (mkConfig (update_scalars (c_scalars c) p) sh vs (c_loaded c) (c_pyproject c)
+                        (c_skip_init c) (c_paths c))
+      end
+  end.
+
+(** * [Config.handle_path], after the payload is loaded *)
+Definition is_mapping (v : val) : bool := match v with VDict _ => true | _ => false end.
+
+Definition handle_payload (c : config) (path : string) (payload : val) : cres config :=
+  if py_truth payload then
+    match payload with
+    | VDict d => cbind (update c d) (fun c' => COk (with_loaded c' path))
+    | _ => CErr (ENotMapping path)
+    end
+  else COk c.     (* falsy payload — None, {}, but also [], 0, false, '' — silently skipped *)
+
+(** [Config.load_yaml] *)
+Definition load_yaml (fs : fsys) (path : string) (raise_not_found : bool) : cres val :=
+  match fs path with
+  | Content v => COk v
+  | Absent => if raise_not_found then CErr (ENotFound path) else COk VNone
+  end.
+
+Definition handle_yaml (fs : fsys) (c : config) (path : string) (raise_not_found : bool)
+  : cres config :=
+  cbind (load_yaml fs path raise_not_found) (handle_payload c path).
+
+(** [Config.load_pyproject_toml] (never called with raise_error) *)
+Definition load_pyproject (fs : fsys) (c : config) (path : string) : cres (config * val) :=
+  match fs path with
+  | Absent => COk (c, VNone)
+  | Content (VDict toml) =>
+      if is_nil toml then COk (c, VNone)
+      else
+        let c' := with_pyproject c toml in
+        match dict_get (VStr "tool") toml with
+        | None => COk (c', VNone)
+        | Some tool =>
+            if py_truth tool then
+              match tool with
+              | VDict t => COk (c', match dict_get (VStr "pypyr") t with
+                                    | Some v => v
+                                    | None => VNone
+                                    end)
+              | _ => CErr (EOther "AttributeError")
+              end
+            else COk (c', VNone)
+        end
+  | Content _ => CUnsup      (* a toml document is always a table *)
+  end.
+
+Definition handle_pyproject (fs : fsys) (c : config) (path : string) : cres config :=
+  cbind (load_pyproject fs c path) (fun cv => handle_payload (fst cv) path (snd cv)).
+
+(** the loop [for path in reversed(config_common): self.handle_path(path)] and its like *)
+Fixpoint handle_yamls (fs : fsys) (c : config) (paths : list string) : cres config :=
+  match paths with
+  | [] => COk c
+  | p :: r => cbind (handle_yaml fs c p false) (fun c' => handle_yamls fs c' r)
+  end.
+
+Definition pyproject_name : string := "pyproject.toml".
+
+(** * [Config.init] *)
+Definition init (e : env) (fs : fsys) (c : config) : cres config :=
+  if skip_requested e then COk (with_skip c)
+  else
+    cbind
+      (match global_path e with
+       | Some g =>
+           cbind (handle_yaml fs c g true) (fun c' => COk (with_paths c' g [g]))
+       | None =>
+           let c0 := with_paths c (user_path e) (common_paths e) in
+           cbind (handle_yamls fs c0 (rev (common_paths e)))
+                 (fun c1 => handle_yaml fs c1 (user_path e) false)
+       end)
+      (fun c2 =>
+         cbind (handle_pyproject fs c2 pyproject_name)
+               (fun c3 => handle_yaml fs c3 (local_name e) false)).
+
+(** * Specification vocabulary (used by the theorems; written from the property text,
+      not from [init]) *)
+
+(** What a yaml file at [p] says: its top-level value; nothing when there is no file. *)
+Definition payload_at (fs : fsys) (p : string) : val :=
+  match fs p with Content v => v | Absent => VNone end.
+
+(** The [tool.pypyr] entry of ./pyproject.toml; nothing when any level is missing. *)
+Definition pyproject_payload (fs : fsys) : val :=
+  match fs pyproject_name with
+  | Content (VDict toml) =>
+      match dict_get (VStr "tool") toml with
+      | Some (VDict t) => match dict_get (VStr "pypyr") t with Some v => v | None => VNone end
+      | _ => VNone
+      end
+  | _ => VNone
+  end.
+
+(** The consulted locations with what they say, HIGHEST precedence first:
+    local file, pyproject [tool.pypyr], then either $PYPYR_CONFIG_GLOBAL alone, or the
+    user file followed by the common directories in the order listed (last-listed lowest). *)
+Definition precedence (e : env) (fs : fsys) : list (string * val) :=
+  (local_name e, payload_at fs (local_name e)) ::
+  (pyproject_name, pyproject_payload fs) ::
+  match global_path e with
+  | Some g => [(g, payload_at fs g)]
+  | None => (user_path e, payload_at fs (user_path e)) ::
+            map (fun p => (p, payload_at fs p)) (common_paths e)
+  end.
+
+(** the first (= highest-precedence) payload that has something to say *)
+Fixpoint first_setting (says : val -> option val) (hi_to_lo : list val) : option val :=
+  match hi_to_lo with
+  | [] => None
+  | v :: r => match says v with Some x => Some x | None => first_setting says r end
+  end.
+
+(** a file's top-level value for setting [k] *)
+Definition file_sets (k : val) (payload : val) : option val :=
+  match payload with VDict d => dict_get k d | _ => None end.
+
+(** a file's value for key [k] inside its dict-valued setting [prop] (vars / shortcuts) *)
+Definition file_sets_in (prop : string) (k : val) (payload : val) : option val :=
+  match file_sets (VStr prop) payload with
+  | Some (VDict m) => dict_get k m
+  | _ => None
+  end.
+
+Definition or_else (o : option val) (d : option val) : option val :=
+  match o with Some x => Some x | None => d end.
+
+Definition setting (s : string) (c : config) : option val := sm_get s (c_scalars c).
+
+(** A payload every clause of the property accepts: no file / empty file, or a mapping
+    whose keys are all known settings and whose vars / shortcuts, when given, are mappings. *)
+Definition dict_prop_ok (o : option val) : bool :=
+  match o with None => true | Some (VDict _) => true | Some _ => false end.
+
+Definition payload_wellformed (v : val) : bool :=
+  match v with
+  | VNone => true
+  | VDict d => is_nil (unknown_keys d)
+               && dict_prop_ok (dict_get (VStr "shortcuts") d)
+               && dict_prop_ok (dict_get (VStr "vars") d)
+  | _ => false
+  end.
+
+(** ./pyproject.toml is absent, or a toml document whose [tool], when present, is a table. *)
+Definition pyproject_wellformed (fs : fsys) : bool :=
+  match fs pyproject_name with
+  | Absent => true
+  | Content (VDict toml) =>
+      match dict_get (VStr "tool") toml with
+      | None | Some (VDict _) => true
+      | Some _ => false
+      end
+  | Content _ => false
+  end.
+
+(** * Comparison with an observation of the implementation *)
+Fixpoint smap_eqb (a b : smap) : bool :=
+  match a, b with
+  | [], [] => true
+  | (k, v) :: r, (k', v') :: r' => String.eqb k k' && val_eqb v v' && smap_eqb r r'
+  | _, _ => false
+  end.
+
+Definition opt_eqb {A} (eqb : A -> A -> bool) (a b : option A) : bool :=
+  match a, b with
+  | None, None => true
+  | Some x, Some y => eqb x y
+  | _, _ => false
+  end.
+
+Definition paths_eqb (a b : string * list string) : bool :=
+  String.eqb (fst a) (fst b) && list_eqb String.eqb (snd a) (snd b).
+
+Definition config_eqb (a b : config) : bool :=
+  smap_eqb (c_scalars a) (c_scalars b)
+  && dict_eqb (c_shortcuts a) (c_shortcuts b)
+  && dict_eqb (c_vars a) (c_vars b)
+  && list_eqb String.eqb (c_loaded a) (c_loaded b)
+  && opt_eqb dict_eqb (c_pyproject a) (c_pyproject b)
+  && Bool.eqb (c_skip_init a) (c_skip_init b)
+  && opt_eqb paths_eqb (c_paths a) (c_paths b).
+
+Definition val_in (k : val) (l : list val) : bool := existsb (val_eqb k) l.
+Definition same_set (a b : list val) : bool :=
+  forallb (fun k => val_in k b) a && forallb (fun k => val_in k a) b.
+
+(** the set in "Unexpected config props: {...}" prints in hash order: compared as a set *)
+Definition cerr_eqb (a b : cerr) : bool :=
+  match a, b with
+  | EUnknownProps x, EUnknownProps y => same_set x y
+  | ENotMapping p, ENotMapping q => String.eqb p q
+  | ENotFound p, ENotFound q => String.eqb p q
+  | EOther n, EOther m => String.eqb n m
+  | _, _ => false
+  end.
+
+Definition check (model obs : cres config) : nat :=
+  match model, obs with
+  | CUnsup, _ => 2%nat
+  | COk a, COk b => if config_eqb a b then 0%nat else 1%nat
+  | CErr a, CErr b => if cerr_eqb a b then 0%nat else 1%nat
+  | _, _ => 1%nat
+  end.
+
+(** the property lists of the implementation against the model's (sorted by the harness) *)
+Definition props_check (scalars dicts : list string) : nat :=
+  if forallb (fun s => str_in s scalars) scalar_props
+     && forallb (fun s => str_in s scalar_props) scalars
+     && forallb (fun s => str_in s dicts) dict_props
+     && forallb (fun s => str_in s dict_props) dicts
+  then 0%nat else 1%nat.
+
+(** * Abbreviations for the case printer (harness/props/C20.py): plain names for the
+      string literals that occur in every generated case, so that a shard of cases parses
+      quickly.  Each is definitionally the literal. *)
+Definition init_fresh (e : env) (fs : fsys) : cres config := init e fs (defaults e).
+
+Definition k_json_ascii := "json_ascii".
+Definition k_json_indent := "json_indent".
+Definition k_pipelines_subdir := "pipelines_subdir".
+Definition k_log_config := "log_config".
+Definition k_log_date_format := "log_date_format".
+Definition k_log_notify_format := "log_notify_format".
+Definition k_log_detail_format := "log_detail_format".
+Definition k_default_backoff := "default_backoff".
+Definition k_default_cmd_encoding := "default_cmd_encoding".
+Definition k_default_encoding := "default_encoding".
+Definition k_default_loader := "default_loader".
+Definition k_default_group := "default_group".
+Definition k_default_success_group := "default_success_group".
+Definition k_default_failure_group := "default_failure_group".
+Definition k_no_cache := "no_cache".
+Definition k_shortcuts := "shortcuts".
+Definition k_vars := "vars".
+Definition k_pipeline_name := "pipeline_name".
+Definition k_args := "args".
+Definition k_tool := "tool".
+Definition k_pypyr := "pypyr".
+Definition k_project := "project".
+Definition d_pipelines := "pipelines".
+Definition d_date := "%Y-%m-%d %H:%M:%S".
+Definition d_notify := "%(message)s".
+Definition d_detail := "%(asctime)s %(levelname)s:%(name)s:%(funcName)s: %(message)s".
+Definition d_fixed := "fixed".
+Definition d_loader := "pypyr.loaders.file".
+Definition d_steps := "steps".
+Definition d_on_success := "on_success".
+Definition d_on_failure := "on_failure".
+Definition p_home := "/SB/home".
+Definition p_c1 := "/SB/c1/pypyr/config.yaml".
+Definition p_c2 := "/SB/c2/pypyr/config.yaml".
+Definition p_c3 := "/SB/c3/pypyr/config.yaml".
+Definition p_u := "/SB/u/pypyr/config.yaml".
+Definition p_hu := "/SB/home/.config/pypyr/config.yaml".
+Definition p_etc := "/etc/xdg/pypyr/config.yaml".
+Definition p_py := "pyproject.toml".
+Definition p_loc := "pypyr-config.yaml".
+Definition p_g := "/SB/g/global.yaml".
+Definition p_grel := "glob.yaml".
+Definition x_dirs12 := "/SB/c1:/SB/c2".
+Definition x_dirs21 := "/SB/c2:/SB/c1".
+Definition x_dirs132 := "/SB/c1:/SB/c3:/SB/c2".
+Definition x_u := "/SB/u".
